@@ -9,6 +9,8 @@ independent NumPy oracle of the documented format and (ii) explicit streams with
 Python-integer oracle AND compared with the model evaluated by vm_compute.  Floats are inverted to the integer quantum they
 encode, relative to the documented cell centre and quantum of the header in force."""
 import itertools
+import os
+import re
 from fractions import Fraction
 
 from vlib import coq, coqio
@@ -226,6 +228,89 @@ def impl_sweeps(payload):
 
 
 # ============================================================================================ oracle (Python integers)
+def impl_reader(payload):
+    """The documented entry point: read_asdf on a pack9 file returns, bit for bit, what unpack_pack9 returns on the same bytes
+    (whose values the other stages judge against the format) - for every load selection and float type, including particles
+    of the outermost cells whose offsets point out of the primary box and headers whose cell index is arbitrary."""
+    import contextlib
+    import io
+    import os
+    import shutil
+    import warnings
+    from harness.c16 import ensure_entry_point
+    os.makedirs(payload['dir'], exist_ok=True)
+    ensure_entry_point(payload['dir'])
+    import asdf
+    import numpy as np
+    from abacusnbody.data.pack9 import unpack_pack9
+    from abacusnbody.data.read_abacus import read_asdf
+    from vlib.implrun import classify
+    warnings.simplefilter('ignore')
+    out = []
+    try:
+        for i, c in enumerate(payload['cases']):
+            rec = {'problems': [], 'outside': 0, 'rows': 0}
+            try:
+                dt = _np_dtype(c['dtype'])
+                n = len(c['records'])
+                data = np.array(c['records'], dtype=np.uint8).reshape(n, 9)
+                fn = os.path.join(payload['dir'], f'p9_{i}.asdf')
+                asdf.AsdfFile({'data': {'pack9': data}, 'header': {'BoxSize': c['box'], 'VelZSpace_to_kms': c['velz'],
+                                                                   'OutputType': 'TimeSlice'}}).write_to(fn)
+                dp, dv = unpack_pack9(data.copy(), c['box'], c['velz'], float_dtype=dt)
+                rec['rows'] = int(len(dp))
+                with np.errstate(invalid='ignore'):
+                    rec['outside'] = int((np.abs(dp) > c['box'] / 2).any(axis=1).sum())
+                for load in (None, ('pos',), ('vel',), ('pos', 'vel'), ('vel', 'pos')):
+                    with contextlib.redirect_stdout(io.StringIO()):
+                        tb = read_asdf(fn, dtype=dt, verbose=False, **({} if load is None else {'load': load}))
+                    want = ('pos', 'vel') if load is None else load
+                    if sorted(tb.colnames) != sorted(want):
+                        rec['problems'].append(f'load={load}: columns {tb.colnames}')
+                        continue
+                    for name, ref in (('pos', dp), ('vel', dv)):
+                        if name in want:
+                            got = np.asarray(tb[name])
+                            if got.dtype != ref.dtype or got.shape != ref.shape or got.tobytes() != ref.tobytes():
+                                k = None
+                                if got.shape == ref.shape:
+                                    bad = np.nonzero(~((got == ref) | ((got != got) & (ref != ref))).all(axis=1))[0]
+                                    k = int(bad[0]) if len(bad) else None
+                                rec['problems'].append(
+                                    f'load={load}: read_asdf {name} differs from unpack_pack9 on the same bytes'
+                                    + (f' (row {k}: {got[k].tolist()} vs {ref[k].tolist()}, {len(bad)} rows)' if k is not None else
+                                       f' ({got.dtype}{got.shape} vs {ref.dtype}{ref.shape})'))
+                rec['class'] = 'ok'
+            except Exception as e:  # noqa: BLE001
+                rec.update({'class': classify(e), 'error': repr(e)[:200]})
+                rec['problems'].append('raised ' + repr(e)[:160])
+            rec['problems'] = rec['problems'][:3]
+            out.append(rec)
+    finally:
+        shutil.rmtree(payload['dir'], ignore_errors=True)
+    return out
+
+
+def reader_cases(ctx, cases):
+    """Streams for the read_asdf stage: allocated-output explicit streams of every pattern (random cells, full 12-bit offsets)
+    plus drifters: one particle 0.8 cells outside the first / last cell of a large-cpd box, along every axis."""
+    rng = ctx.rng
+    pick = [c for c in cases if c['pc'] == 0 and c['vc'] == 0 and c.get('layout') is None and len(c['records']) > 0]
+    pick = [dict(c, kind='reader:' + c['kind']) for c in rng.sample(pick, min(len(pick), 10 if ctx.quick() else 40))]
+    for dt in ('f4', 'f8'):
+        cpd = rng.choice([405, 512]) if dt == 'f4' else rng.choice([1701, 3333])
+        for ax in range(3):
+            for idx, off in ((cpd - 1, 2048 + 1600), (0, 2048 - 1600)):
+                cell = [rng.randrange(1, cpd - 1) for _ in range(3)]
+                cell[ax] = idx
+                f = [2048 + rng.randrange(-900, 900) for _ in range(6)]
+                f[ax] = off
+                box, velz = SCALES[rng.randrange(len(SCALES))]
+                pick.append({'kind': 'reader:drifter', 'box': box, 'velz': velz, 'dtype': dt, 'pc': 0, 'vc': 0, 'extra': 0,
+                             'records': [header_rec(rng, dt, cpd=cpd, idx=cell), particle_rec(rng, f)]})
+    return pick
+
+
 def p9_oracle(c):
     """Expected canonical outcome of an unpack_pack9 case and the per-particle header context used to invert the floats."""
     box, velz = Fraction(c['box']), Fraction(c['velz'])
@@ -509,6 +594,21 @@ def explore(ctx):
             seen.add(v['key'])
             counterexamples.append(v)
 
+    rcases = reader_cases(ctx, cases)
+    try:
+        rgot = ctx.run_impl('harness.c15', 'impl_reader', {'cases': rcases, 'dir': os.path.join(ctx.scratch, 'c15_reader')})
+    except RuntimeError as e:
+        ctx.notes.append(f'read_asdf stage aborted: {str(e)[:300]}')
+        rgot = []
+    reader = {'files': len(rgot), 'reads': 5 * len(rgot), 'rows': sum(g['rows'] for g in rgot),
+              'rows_outside_the_primary_box': sum(g['outside'] for g in rgot), 'failing': 0}
+    for c, g in sorted(zip(rcases, rgot), key=lambda cg: len(cg[0]['records'])):
+        if g['problems']:
+            reader['failing'] += 1
+            add({'key': 'reader:' + re.sub(r'[^a-z_ =]+', '', g['problems'][0].split('(')[0])[:60],
+                 'what': 'read_asdf on a pack9 file does not return the decoding of its bytes (unpack_pack9 on the same bytes)',
+                 'input': dict(c, stage='reader'), 'impl': g, 'problems': g['problems']})
+
     terms, owner = [], []
     nshrunk, nfailing, tried = [0], 0, set()
     dist = {'cases': len(cases), 'patterns': {}, 'selection_modes': {}, 'dtypes': {}, 'stream_lengths': {},
@@ -567,7 +667,7 @@ def explore(ctx):
         ctx.notes.append('model not available (translator or proofs broken): correspondence vs model skipped')
 
     return {
-        'evaluations': sweep['records'] + nrec + sum(len(cases[i]['records']) for i in plain),
+        'evaluations': sweep['records'] + nrec + sum(len(cases[i]['records']) for i in plain) + 5 * reader['rows'],
         'distinct_nontrivial': len(distinct),
         'rule': 'evaluations = records pushed through the compiled unpack_pack9 and judged: bulk random streams (3% headers, '
                 'every 12-bit value of each of the six fields in every run, streams starting with and without a header, float32 '
@@ -575,7 +675,9 @@ def explore(ctx):
                 'particles, consecutive headers, trailing header, all-0xFF / all-0x00 records, every value of every field, strided '
                 'cpd and velocity-code sweeps) x 9 selection pairs x allocated/supplied (spare rows, exactly one row per particle) '
                 'which are also evaluated on the Coq model; every explicit stream is run compiled and under NUMBA_BOUNDSCHECK=1 '
-                '(supplied arrays shorter than the stream under bounds checking only).  distinct_nontrivial = distinct particle records in the explicit '
+                '(supplied arrays shorter than the stream under bounds checking only); plus the rows read through read_asdf from pack9 '
+                'files (5 load selections each, bitwise against unpack_pack9 on the same bytes; drifters outside the outermost '
+                'cells of large-cpd boxes).  distinct_nontrivial = distinct particle records in the explicit '
                 'streams that follow a header and are not all-0x00/0xFF',
         'samples': [{'input': dict(cases[k], records=cases[k]['records'][:3]),
                      'impl': {n: {kk: (vv[:6] if isinstance(vv, list) else vv) for kk, vv in v.items()}
@@ -587,6 +689,7 @@ def explore(ctx):
         'input_distribution': dict(dist, bulk_records=sweep['records'], bulk_particles=sweep['particles'],
                                    bulk_headers=sweep['headers'], bulk_runs=sweep['runs'],
                                    bulk_distinct_values_per_field=sweep['field_values_seen']),
+        'read_asdf_stage': reader,
         'mismatches': mismatches, 'counterexamples': counterexamples[:4], 'explicit_cases_failing_the_oracle': nfailing,
         'float_residual': '|value - cell centre| / quantum within 1/4 (float32, cpd <= 512) or 2^-20 (float64) of an integer',
     }
@@ -608,6 +711,9 @@ def search(ctx, broken):
 
 def replay(ctx, rec):
     c = rec['input']
+    if c.get('stage') == 'reader':
+        g = ctx.run_impl('harness.c15', 'impl_reader', {'cases': [c], 'dir': os.path.join(ctx.scratch, 'c15_reader_replay')})[0]
+        return bool(g['problems']), {'input': c, 'impl_result': g, 'problems': g['problems']}
     g = ctx.run_impl('harness.c15', 'impl_p9_cases', {'cases': [c]}, {'NUMBA_BOUNDSCHECK': '1'})[0]
     problems = p9_judge(c, g)[1]
     return bool(problems), {'input': c, 'impl_result': g, 'problems': problems[:6], 'mode': 'NUMBA_BOUNDSCHECK=1'}
